@@ -1,75 +1,9 @@
-# Per-property configuration of ./check.
-PROPS = {
-    "C01": {
-        "level": "proof",
-        "rule": "Structured wire images (header + 0..40 TLVs, boundary value lengths, damaged length bytes, Length field "
-                "exact/off-by-one/19/20/4095..4097/beyond buffer, trailing padding), arbitrary byte strings, and Packet values "
-                "(codes -1..300, types -1..1000, value lengths 0..300, totals 4086..4100).",
-        "level_text": "Lean theorems (all byte strings / all Packet values, by induction) that the model's Parse accepts exactly the well-formed "
-                      "inputs, that MarshalBinary after Parse reproduces the first Length bytes, that Parse after MarshalBinary returns the same packet, "
-                      "and that oversize is refused; the model is tied to packet.go/attributes.go by re-probed limits closed in the kernel and by a "
-                      "differential run with the statement's predicate evaluated on the implementation's own outputs.",
-        "level_note": "Trusted: Lean kernel; the hand-written mirror RV.Model.Wire of the Go code (validated, not verified, by the correspondence run); "
-                      "Go slice semantics as modelled; harness, driver glue and ./check.",
-        "trusted": ["Model.Wire mirrors packet.go/attributes.go by hand; tied by this run's correspondence and by Facts.Tie (limits 20/4096/253/2 re-probed from the code)"],
-        "assumptions": ["Go slice/append/copy semantics as mirrored in RV.Model.Wire"],
-    },
-    "C09": {
-        "level": "proof",
-        "rule": "Every operation sequence of length <= 3 (quick) / 4 (thorough) over Add/Set/Del/Get/Lookup x types {-1,1,2,255,256} x values "
-                "{empty,'a','bb'} from three initial lists, plus random sequences of up to 60 operations with runs of duplicates and 253/254-byte values; "
-                "the list after every step and the final wire form are compared.",
-        "level_text": "Lean theorems that the Go in-place loops (index walk with removal) for Del/Set and Add/Get/Lookup refine an ordered-multimap "
-                      "specification for every list and every operation sequence, and that the wire form lists exactly the valid-type attributes in order "
-                      "with reported length = bytes written; tied to attributes.go by exhaustive short programs and random long ones.",
-        "level_note": "Trusted: Lean kernel; the hand-written mirror of the loops in RV.Model.Wire (validated by the correspondence run); harness, driver glue, ./check.",
-        "trusted": ["Model.Wire index-walk loops mirror attributes.go by hand; tied by this run's correspondence"],
-        "assumptions": ["Go slice/append semantics as mirrored in RV.Model.Wire"],
-    },
-    "C03": {
-        "level": "proof",
-        "rule": "Packets x all codes -2..300 x secrets (incl. empty) through Encode; request/reply pairs (reply built from the parsed request) "
-                "with single-byte corruption and a different secret; authentic and damaged (bit flip, truncation, extension) datagrams through "
-                "both predicates; New() called 64 times per case.",
-        "level_text": "Lean theorems for an arbitrary 16-byte hash H: Encode's authenticator equals the RFC formula for every code (per-code table complete over 0..255, "
-                      "closed by kernel evaluation against the table probed from the code), the predicates are true iff the RFC formula holds, Encode and the predicates "
-                      "are mutually consistent, and acceptance of a tampered datagram is exactly an H-collision on distinct inputs; tied to packet.go by the probed tables "
-                      "and a differential run with H := a Lean MD5 written from RFC 1321.",
-        "level_note": "Trusted: Lean kernel; RV.Model.Auth as mirror of packet.go (validated by correspondence + per-code tables); no cryptographic strength of MD5 is claimed; "
-                      "freshness of crypto/rand is the OS's (call site checked syntactically, distinctness sampled).",
-        "trusted": ["Lean MD5 (RFC 1321) compared with crypto/md5 on every case through the Encode/predicate results", "go/ast fact: New reads from crypto/rand"],
-        "assumptions": ["crypto/rand returns fresh bytes"],
-    },
-    "C04": {
-        "level": "proof",
-        "rule": "Every plaintext length 0..140 x contents (random, printable, embedded/trailing NULs) x secrets (incl. empty) x authenticators (incl. wrong sizes) through "
-                "NewUserPassword and the round trip; every ciphertext length 0..300 through UserPassword.",
-        "level_text": "Lean theorems for an arbitrary 16-byte hash: NewUserPassword equals the RFC 2865 s5.2 ciphertext, has length 16*max(1,ceil(n/16)), refuses exactly the "
-                      "out-of-domain inputs, UserPassword inverts it up to the first NUL and accepts exactly lengths 16..128 in steps of 16; the Lean side computes the RFC ciphertext "
-                      "with its own MD5 so a two-sided error in the Go code is a disagreement.",
-        "level_note": "Trusted: Lean kernel; RV.Model.Password as mirror of attribute.go (validated by correspondence); Lean MD5.",
-        "trusted": ["Lean MD5 (RFC 1321)"],
-        "assumptions": [],
-    },
-    "C11": {
-        "level": "proof",
-        "rule": "Every password length 0..260 x contents x salts (high bit set/clear, wrong lengths) x secrets x authenticators through NewTunnelPassword and the round trip; "
-                "every attribute length 0..300 and genuine encodings with a corrupted embedded length through TunnelPassword.",
-        "level_text": "Lean theorems for an arbitrary 16-byte hash: NewTunnelPassword equals the RFC 2868 s3.5 encoding, the result plus a tag byte fits in one attribute, "
-                      "TunnelPassword returns the same password and salt, refusals are exactly the out-of-domain inputs, and the decoder's accept set is exact.",
-        "level_note": "Trusted: Lean kernel; RV.Model.Password as mirror of attribute.go (validated by correspondence); Lean MD5.",
-        "trusted": ["Lean MD5 (RFC 1321)"],
-        "assumptions": [],
-    },
-    "C10": {
-        "level": "proof",
-        "rule": "All uint16 (every 7th in quick), boundary + random uint32/uint64, strings/octets 0..300 bytes, IPs of length 0..20 incl. v4-mapped and near-mapped, "
-                "interface-ids 0..16 bytes, times from year 1 to beyond 2106 incl. negative Unix times and nanoseconds, vendor ids x payloads 0..260, TLV values 0..260, "
-                "every prefix length 0..128 x addresses x contiguous / non-contiguous / wrong-size masks, and every decoder on every length 0..300 (+ all 1-2 byte strings in thorough).",
-        "level_text": "Lean theorems per codec: decode(encode v) = canonical v, the encoder errs iff the value is unrepresentable, emitted values are <= 253 bytes (255 for TLV), "
-                      "and each decoder's accept set is exactly its wire format; tied to attribute.go by a differential run whose oracle is written independently of the model's encoders.",
-        "level_note": "Trusted: Lean kernel; RV.Model.Codec as mirror of attribute.go incl. net.IP.To4/To16, IPMask.Size, CIDRMask, time.Unix as modelled (validated by correspondence).",
-        "trusted": ["models of net.IP.To4/To16, net.IPMask.Size, net.CIDRMask, time.Time.Unix"],
-        "assumptions": ["Go's fixed-width integer arguments are in range by typing (the harness offers only in-range values)"],
-    },
-}
+# Per-property configuration of ./check: one file per property under checklib/propdefs/<id>.py,
+# each defining PROP = {level, rule, level_text, level_note, trusted, assumptions, ...}.
+import glob, os, importlib.util
+PROPS = {}
+for _p in sorted(glob.glob(os.path.join(os.path.dirname(os.path.abspath(__file__)), "propdefs", "C*.py"))):
+    _spec = importlib.util.spec_from_file_location("propdef_" + os.path.basename(_p)[:-3], _p)
+    _m = importlib.util.module_from_spec(_spec)
+    _spec.loader.exec_module(_m)
+    PROPS[os.path.basename(_p)[:-3]] = _m.PROP
